@@ -142,6 +142,7 @@ def check_model(R, xml, tags, case, P):
         P.count("skipped_nv0")
         return
     has_rows = int(dx0._impl.nefc) > 0
+    wraps_geom = bool(np.any(np.isin(np.asarray(m.wrap_type), [int(mj.mjtWrap.mjWRAP_SPHERE), int(mj.mjtWrap.mjWRAP_CYLINDER)])))
     modes = ["fwd"] if has_rows else ["fwd", "rev"]
     P.count("models")
     P.count("models_with_constraint_rows" if has_rows else "models_without_constraint_rows")
@@ -287,7 +288,10 @@ def check_model(R, xml, tags, case, P):
                 det = dict(base, state=st, state_kind=kind, group="combined", var=vname, mode="rev", ad=r, fd=fdc, fwd=jc)
                 if not np.isfinite(r):
                     if np.isfinite(fdc):
-                        P.violation("gradient-non-finite:combined-wrt-%s[rev]" % vname + ("@rest" if kind == "rest" else ""), det)
+                        if wraps_geom and np.isfinite(jc):
+                            P.violation("gradient-non-finite:reverse-mode-through-tendon-geom-wrapping", det)
+                        else:
+                            P.violation("gradient-non-finite:combined-wrt-%s[rev]" % vname + ("@rest" if kind == "rest" else ""), det)
                     continue
                 if np.isfinite(jc):
                     e2 = abs(r - jc) / max(abs(r), abs(jc), 1e-6 * (1 + float(np.abs(cw * f0).sum())))
@@ -313,8 +317,11 @@ def check_model(R, xml, tags, case, P):
                 if np.any((cols >= off) & (cols < off + sz)):
                     names.append(k)
                 off += sz
-            P.violation("gradient-non-finite:reverse-mode-wrt-%s" % ",".join(names) + ("@rest" if kind == "rest" else ""),
-                        dict(base, state=st, state_kind=kind))
+            if wraps_geom and np.all(np.isfinite(jvp)):
+                P.violation("gradient-non-finite:reverse-mode-through-tendon-geom-wrapping", dict(base, state=st, state_kind=kind, wrt=names))
+            else:
+                P.violation("gradient-non-finite:reverse-mode-wrt-%s" % ",".join(names) + ("@rest" if kind == "rest" else ""),
+                            dict(base, state=st, state_kind=kind))
         P.count("states_evaluated")
 
 
